@@ -607,7 +607,7 @@ pub fn run(eng: &mut Engine) {
         PartCfg::new(
             "sessions",
             "generated sessions: 1-4 objects (sizes at symbol/block/a_large-a_small boundaries) x 5 schemes x E x B x parity x cenc x in-band/FDT-only FTI and CENC x publish mode x interleave x multiplex x priority queues x transfer count x receive-once x buffer/file/stream sources x buffer/fs writer, every packet pushed in emission order; non-trivial = >=2 blocks or short last symbol or cenc!=null or >=2 objects or FDT-only OTI; distinct by case",
-            tier.pick(8000, 300_000),
+            tier.pick(60_000, 1_500_000),
         )
         .limit_s(60)
         .hang_violates(),
@@ -618,7 +618,7 @@ pub fn run(eng: &mut Engine) {
         PartCfg::new(
             "at-limit",
             "objects of exactly max-1, max, max+1 bytes for tiny E*B (RS28 / RaptorQ 255 blocks, No-Code 65535 blocks) really transmitted: accepted ones must be delivered, ones the wire cannot carry must be refused; non-trivial = always (boundary sizes); distinct by case",
-            tier.pick(60, 600),
+            tier.pick(120, 1200),
         )
         .limit_s(120)
         .hang_violates(),
@@ -633,7 +633,7 @@ pub fn run(eng: &mut Engine) {
         PartCfg::new(
             "refusal",
             "virtual seekable streams of a claimed length around 2^40, 2^44, 2^48 and around blocks*B*E per scheme: add_object must refuse what the wire format cannot carry (never transmitted); non-trivial = always; distinct by (OTI, length)",
-            tier.pick(20_000, 400_000),
+            tier.pick(200_000, 4_000_000),
         ),
         limit_strategy,
         run_limit,
